@@ -155,7 +155,7 @@ func readStreamOne(src string, c cfg, r *cutReader) (o outcome) {
 
 func readStreamPush(src string, c cfg, r *cutReader) (o outcome) {
 	o.endPos = -1
-	ch := make(chan slip.Object, 4096)
+	ch := make(chan slip.Object, 256)
 	guard(&o, func() { slip.ReadStreamPush(r, newScope(c), ch) })
 	close(ch)
 	for obj := range ch {
